@@ -191,6 +191,14 @@ type cmC08 struct {
 
 func c08Pair(auditor, owner string) string { return auditor + "|" + owner }
 
+// cmNormAddr returns the canonical (lower-case) spelling of a bech32 account address.
+func cmNormAddr(a string) string {
+	if x, err := sdk.AccAddressFromBech32(a); err == nil {
+		return x.String()
+	}
+	return a
+}
+
 // signed returns the modelled attestation of auditor for owner as an attribute list.
 func (o *cmC08) signed(auditor, owner string) akashtypes.Attributes {
 	var out akashtypes.Attributes
@@ -277,11 +285,13 @@ func (o *cmC08) admissible(m *chainMachine, pre *cmSnap, msg *mtypes.MsgCreateBi
 	if ord.State != mtypes.OrderOpen {
 		return false, "order is not open"
 	}
-	prov, ok := pre.provider(msg.Provider)
+	// an account address has two valid spellings (all lower case, all upper case): compare accounts, not strings
+	bidder := cmNormAddr(msg.Provider)
+	prov, ok := pre.provider(bidder)
 	if !ok {
 		return false, "provider is not registered"
 	}
-	if msg.Provider == msg.Order.Owner {
+	if bidder == cmNormAddr(msg.Order.Owner) {
 		return false, "provider is the tenant"
 	}
 	max := ord.Spec.Price()
@@ -298,8 +308,8 @@ func (o *cmC08) admissible(m *chainMachine, pre *cmSnap, msg *mtypes.MsgCreateBi
 	attest := func(auditor string) (akashtypes.Attributes, bool) {
 		// existence of a (possibly empty) record is read from the chain, its content from the model
 		for _, a := range pre.audits {
-			if a.Owner == msg.Provider && a.Auditor == auditor {
-				return o.signed(auditor, msg.Provider), true
+			if a.Owner == bidder && a.Auditor == auditor {
+				return o.signed(auditor, bidder), true
 			}
 		}
 		return nil, false
